@@ -56,6 +56,8 @@ def run_one(tape, opts):
     built = pl.Built()
     result = pl.build_stack(spec, world, built, make_testtools=lambda w, n: LoggingTestResult(w, n))
     rep = pl.Reporter(result, hist, reuse_details_dict=tape.chance("config", 1, 3, "reporter-reuses-details-dict"))
+    # a second pipeline of the same shape, alive at the same time, fed between the main one's calls
+    decoy = pl.Decoy(spec, lambda w, n: LoggingTestResult(w, n)) if tape.chance("config", 1, 3, "decoy-pipeline") else None
     windows = {}
     override = None
     tests = []
@@ -80,6 +82,8 @@ def run_one(tape, opts):
                 break
             if c is None:
                 break
+            if decoy is not None:
+                decoy.step()
             hi = clock.peek()
             op = c[0]
             if op == "time":
@@ -110,6 +114,13 @@ def run_one(tape, opts):
     if raised is None:
         _check_terminals(out, built, world, tests, spec, hist)
         _check_bytest(out, built, hist, spec)
+    if decoy is not None:
+        vclock.install(clock)
+        try:
+            decoy.finish(out, spec)
+        finally:
+            vclock.uninstall()
+        out.probe("decoy-pipeline" if decoy.reference is not None else "decoy-pipeline-not-applicable")
     # accounting
     nterm = len(built.terminals) + len(built.bytest)
     depth = max([len(t["path"]) for t in built.terminals + built.bytest] or [0])
